@@ -23,7 +23,13 @@ class BaseParser(ABC):
         pass
 
     def find_file_locations(self) -> List[Path]:
-        return list(Path(self.parent_directory).rglob(self.file_type.value))
+        # like source files, a manifest that is a symlink is left alone: it may
+        # belong to something outside the project
+        return [
+            path
+            for path in Path(self.parent_directory).rglob(self.file_type.value)
+            if not path.is_symlink()
+        ]
 
     def parse(self) -> list[PackageStore]:
         """
